@@ -91,7 +91,7 @@ Fixpoint j04_run (pc : proxy_case) (st : jstate) (pins : pin_tab) (last : rot) (
          (obs : list (list (bytes * bytes) * list nat)) : option (nat * nat) :=
   match evs, obs with
   | ev :: er, (outs, closed) :: or_ =>
-      let next_r (p : pin_tab) (r : rot) := j04_run pc (js_step st ev outs) p r er or_ in
+      let next_r (p : pin_tab) (r : rot) := j04_run pc (js_step_c st ev outs closed) p r er or_ in
       let next (p : pin_tab) := next_r p last in
       let skip (p : pin_tab) := next_r p None in
       let now := time_of (pc_waits pc) (js_event st) in
@@ -189,7 +189,7 @@ Fixpoint j12_run (pc : proxy_case) (st : jstate) (tb : trans_tab) (dead : list n
   match evs, obs with
   | ev :: er, (outs, closed) :: or_ =>
       let dead' := closed ++ (match ev with EvTcpClose c => [c] | _ => [] end) ++ dead in
-      let next (t : trans_tab) := j12_run pc (js_step st ev outs) t dead' er or_ in
+      let next (t : trans_tab) := j12_run pc (js_step_c st ev outs closed) t dead' er or_ in
       match j_input st ev with
       | Some i =>
           match j_read (ji_data i) with
